@@ -61,6 +61,7 @@ func vsMatchTableCoq(raw string) string {
 func vpRunState(c *vsCluster, plus bool) *vpWorld {
 	w := vpNewWorld(plus)
 	evs := vpBaseEvents()
+	evs = append(evs, w.vpPlusEvents()...)
 	for _, o := range c.Objects() {
 		evs = append(evs, w.Apply(o))
 	}
